@@ -245,11 +245,11 @@ def wCfg : Cfg := { hasPerm := true, hasBatch := true, sys := none, systemDevice
 def wCmd1 : Cmd := { sender := ([0x62, 0x6f, 0x74, 0x5f, 0x5f, 0x5f, 0x5f, 0x63, 0x6d, 0x64] : Bytes), device := ([0x64, 0x31] : Bytes), chanId := ([0x75, 0x32] : Bytes), chanType := tPerson,
                      normalize := true, requestScoped := false, scopedN := 0 }
 
+set_option maxRecDepth 100000 in
 /-- **Residual command suffix — the paths disagree.**  A sender whose UID ends in
     `____cmd` and is on the receiver's deny list is refused by the per-send path
     (InBlacklist) but ACCEPTED by the batched path, which strips the suffix a second
     time and consults the deny list of a different user (`bot`). -/
-set_option maxRecDepth 100000 in
 theorem c36_paths_disagree_residual_suffix :
     perSend wCfg wStore1 wCmd1 = ⟨rInBlacklist, .none, none⟩ ∧
     batch wCfg wStore1 wCmd1 = ⟨rSuccess, .none, some ([0x75, 0x32, 0x40, 0x62, 0x6f, 0x74, 0x5f, 0x5f, 0x5f, 0x5f, 0x63, 0x6d, 0x64] : Bytes)⟩ ∧
